@@ -306,11 +306,16 @@ fn real_ip(seed: u64, index: u64, real: &mut Real, rng: &mut Rng, rep: &mut Repo
 pub fn run(seed: u64, start: u64, iters: u64, real_every: u64, rep: &mut Report) {
     let scratch = Scratch::new("c16");
     std::env::set_current_dir(&scratch.path).expect("chdir scratch");
-    let mut real = match Real::new() {
-        Ok(r) => Some(r),
-        Err(e) => {
-            rep.notes.push(format!("real io_uring unavailable: {e}"));
-            None
+    // Miri has no io_uring system calls: only the pure part runs there.
+    let mut real = if cfg!(miri) {
+        None
+    } else {
+        match Real::new() {
+            Ok(r) => Some(r),
+            Err(e) => {
+                rep.notes.push(format!("real io_uring unavailable: {e}"));
+                None
+            }
         }
     };
     for index in start..start + iters {
